@@ -82,7 +82,10 @@ def judgeFmt (which : String) (text : List Char) (sp : Bool) (ts : Nat) (impl : 
       | _ =>
         let unit : List Char := if sp then List.replicate ts ' ' else ['\t']
         match ans with
-        | some (_, t) => if t == text then "bad:C11:edit-returned-although-nothing-changes" else
+        | some (r, t) => if t == text then "bad:C11:edit-returned-although-nothing-changes" else
+          -- the client's text after the edit is the canonical text only if the edit replaces the whole document
+          let e := LspPos.position text (utf8Len text)
+          if r != s!"0:0-{e.line}:{e.col}" then s!"bad:C11:edit-range-{r}-leaves-old-text-behind-the-canonical-text-0:0-{e.line}:{e.col}" else
           (match (Fmt.lines t).find? (fun l => !indentOk unit l) with
            | some l => s!"bad:C11:line-not-indented-with-the-unit:{hexOfText l}"
            | none => "ok")
